@@ -1223,9 +1223,10 @@ def generate(cfg, core, out):
             cases.append(f"c17calc ? {alpha} {len(pattern)} {' '.join(pattern)} | auto {f32_bits(0.0)} 50 {join(syms)} "
                          + " ".join(pssm_tokens(s) for s in specs))
         # ---- p-value / score conversions, max_score
-        for _ in range(reps):
+        for rep in range(max(reps, 2)):
             M = rng.range(1, 6 if alpha == "dna" else 3)
-            spec = (logodds_pssm(rng, alpha, M), None if rng.chance(2, 3) else grid_bg(rng, alpha, False))
+            # every other matrix carries its own non-uniform background (the p-value must use it)
+            spec = (logodds_pssm(rng, alpha, M), None if rep % 2 == 0 else grid_bg(rng, alpha, False))
             ps = pssm_tokens(spec)
             mx = sum(max(bits_f32(v) for v in r[:-1]) for r in spec[0])
             for method in (["meme", "tfmpvalue", "foo", ""] if alpha == "dna" else ["meme", "bar"]):
